@@ -53,6 +53,10 @@ class System(ManagerSystem):
         u = f + hist[f:].index(self.i_unfreeze)
         return 2, len(hist) - u - 1
 
+    def state_extra(self, hist, opi):
+        # in the phased runs the enabled operations depend on the phase and on how far it has progressed
+        return None if self.free else self.phase(hist + (opi,))
+
     def enabled_ops(self, hist, ms):
         base = mgr.enabled(ms, self.universe, False)
         if self.free:
